@@ -9,7 +9,7 @@ using namespace rkcommon;
 #ifndef STEPS
 #define STEPS 3
 #endif
-#define NK 3
+#define NK 5
 
 // reference model: insertion-ordered unique-key association list
 struct Ref { int key[NK + 1]; int val[NK + 1]; int n; };
@@ -44,7 +44,7 @@ template <int N, int OP> static void t_step()
 }
 #define STEP(N, OP) VP_ENTRY vp_main_fm_n##N##_op##OP() { t_step<N, OP>(); }
 #define STEPS_N(N) STEP(N, 0) STEP(N, 1) STEP(N, 2) STEP(N, 3) STEP(N, 4) STEP(N, 5)
-STEPS_N(0) STEPS_N(1) STEPS_N(2) STEPS_N(3)
+STEPS_N(0) STEPS_N(1) STEPS_N(2) STEPS_N(3) STEPS_N(4) STEPS_N(5)
 
 // ParameterizedObject: names "a","b"; int and float values under one name
 struct PObj : public utility::ParameterizedObject { using utility::ParameterizedObject::params_begin; using utility::ParameterizedObject::params_end; };
